@@ -94,11 +94,31 @@ def byte_values(tier):
     return vals
 
 
+import enum
+
+
+class MyStr(str):
+    pass
+
+
+class Colour(str, enum.Enum):
+    GREEN = "green"
+
+
+class MyInt(int):
+    pass
+
+
+class MyBytes(bytes):
+    pass
+
+
 def object_values():
     leaves = [None, True, False, 0, 1, -1, 2**70, -(2**70), 1.5, "", "text", "é\r\n", b"", b"\r\n", b"x" * 500, "y" * 500]
     out = list(leaves)
     out += [[], (), {}, set(), [0], (False,), {"k": None}, {1, 2}, [b"", ""], {"a": [1, (2, "é")], "b": b"\xff"},
-            ("t", 1, None), [incompressible(450)], frozenset([1]), 10**30]
+            ("t", 1, None), [incompressible(450)], frozenset([1]), 10**30,
+            MyStr("sub"), Colour.GREEN, MyInt(7), MyBytes(b"raw"), [MyStr("nested")]]
     return out
 
 
@@ -181,16 +201,20 @@ def _w_values(job, chk):
                  [(v, "ascii") for v in ("", "é", 0, 5, True, False, ("t", 1), [1, 2], None)]
     else:
         values = [(v, "ascii") for v in byte_values(tier)[:40] + byte_values(tier)[-22:]] + [(v, "ascii") for v in object_values()]
+    if sname.startswith("compressed"):
+        # compresses far below the item limit although it is larger than 1 MiB uncompressed
+        values.append((b"A" * (2 * 1024 * 1024 + 17), "ascii"))
+        values.append(("B" * (1024 * 1024 + 5), "ascii"))
     values = values[part::4]
     for v, enc in values:
-        big = isinstance(v, bytes) and len(v) > 9000
+        big = isinstance(v, (bytes, str)) and len(v) > 9000
         deliveries = ("whole",) if big else (("whole", "segment", "byte") if (tier == "thorough" or not isinstance(v, bytes) or len(v) < 64 or len(v) in (4096, 8192)) else ("whole", "segment"))
         for store in STORES:
             for fetch in FETCHES:
                 if big and (store, fetch) not in (("set", "get"), ("set_many", "get_many"), ("cas", "gets")):
                     continue
                 for dl in deliveries:
-                    if dl == "byte" and isinstance(v, bytes) and len(v) > 9000:
+                    if dl == "byte" and big:
                         continue
                     res = round_trip("k", v, serde, store, fetch, dl, encoding=enc)
                     chk.add()
